@@ -424,6 +424,64 @@ func main() {
 				e.Strs("decompressToNoCodec", res, "DocBlock.DecompressTo: the uncompressed case copies the payload into dst")
 			})
 		}
+		// the sealed-index loaders: an empty / unreadable block is a FAILURE inside the cache's loader call
+		if si, err := r.Load("frac/sealed_ids.go"); err != nil {
+			e.Missing("sealed_ids.go", err)
+		} else {
+			var guarded []string
+			for _, name := range []string{"loadMIDBlock", "loadParamsBlock", "loadRIDBlock"} {
+				fd := si.Func("IDsLoader", name)
+				if fd == nil || fd.Body == nil {
+					e.Missing("idsLoadersFailOnEmpty", name+" not found")
+					continue
+				}
+				// an `if ... len(data) == 0 ...` whose body panics, before the value is returned / unpacked
+				ast.Inspect(fd.Body, func(x ast.Node) bool {
+					is, ok := x.(*ast.IfStmt)
+					if !ok || !strings.Contains(si.Render(is.Cond), "len(data) == 0") {
+						return true
+					}
+					for _, c := range si.Calls(is.Body) {
+						if strings.HasSuffix(c, "Panic") || c == "panic" {
+							guarded = append(guarded, name+": if "+si.Render(is.Cond))
+						}
+					}
+					return true
+				})
+			}
+			e.Strs("idsLoadersFailOnEmpty", guarded, "IDsLoader.load*Block: loaders that panic (inside the cache's loader call) when the block is empty / unreadable")
+			var gets []string
+			for _, name := range []string{"GetMIDsBlock", "GetRIDsBlock", "GetParamsBlock"} {
+				if fd := si.Func("IDsLoader", name); fd != nil {
+					for _, c := range si.Calls(fd.Body) {
+						if strings.HasPrefix(c, "il.cache.") || strings.HasPrefix(c, "il.load") {
+							gets = append(gets, name+": "+c)
+						}
+					}
+				}
+			}
+			e.Strs("idsLoaderCalls", gets, "IDsLoader.Get*Block: the cache call and the loader run inside it")
+		}
+		if tl, err := r.Load("frac/token/table_loader.go"); err != nil {
+			e.Missing("table_loader.go", err)
+		} else {
+			fn(tl, "TableLoader", "load", "tableLoaderStrings", func(fd *ast.FuncDecl) {
+				var strs []string
+				ast.Inspect(fd.Body, func(x ast.Node) bool {
+					if a, ok := x.(*ast.AssignStmt); ok && len(a.Lhs) == 1 {
+						l := tl.Render(a.Lhs[0])
+						if l == "fieldName" || l == "field.MinVal" || l == "e.MaxVal" || l == "minVal" {
+							strs = append(strs, tl.Render(a))
+						}
+					}
+					return true
+				})
+				e.Strs("tableLoaderStrings", strs, "TableLoader.load: where the strings stored in the cached table come from (copies of the read buffer)")
+			})
+			fn(tl, "TableLoader", "readBlock", "tableLoaderReadBlock", func(fd *ast.FuncDecl) {
+				e.Strs("tableLoaderReadBlock", events(tl, fd.Body, func(s string) bool { return strings.Contains(s, "buf") || strings.Contains(s, "ReadIndexBlock") }), "TableLoader.readBlock: the read buffer is reused for every block")
+			})
+		}
 		if cf, err := r.Load("fracmanager/config.go"); err != nil {
 			e.Missing("config.go", err)
 		} else {
@@ -512,5 +570,5 @@ func main() {
 				}), "createCleaners: the arithmetic of the split")
 			})
 		}
-	}, "cache/cache.go", "cache/cleaner.go", "fracmanager/cache_maintainer.go", "frac/sealed_index_cache.go", "disk/doc_blocks_reader.go", "disk/doc_block.go", "fracmanager/config.go")
+	}, "cache/cache.go", "cache/cleaner.go", "fracmanager/cache_maintainer.go", "frac/sealed_index_cache.go", "disk/doc_blocks_reader.go", "disk/doc_block.go", "fracmanager/config.go", "frac/sealed_ids.go", "frac/token/table_loader.go")
 }
